@@ -285,3 +285,32 @@ Definition kv_plain_ok (ctx_tbl : list kvrow) (r : kvrow) : bool :=
       existsb (fun c => String.eqb (kvrow_name c) target) ctx_tbl
   | _ => false
   end.
+
+(* ---- one go-redis client per address (clientmanager.go, clustermanager.go) ----
+   Documented: the client of a wrapper instance is looked up under r.Addr in a process-wide manager and, when
+   absent, created from a FRESH red.Options / red.ClusterOptions literal whose Addr(s) is r.Addr: nothing of the
+   options is shared between the clients of different addresses, so a client re-dials its own address. *)
+Definition client_rest : list string :=
+  ["var tlsConfig * tls . Config";
+   "if r . tls { tlsConfig = & tls . Config { InsecureSkipVerify : true , } ; }";
+   "client . AddHook ( durationHook )";
+   "return client , nil"].
+
+Definition client_spec : list clientrow := [
+  ClientNew "getClient" "clientManager" "r . Addr" "NewClient" "Options" true
+    [("Addr", "r . Addr"); ("Password", "r . Pass"); ("DB", "defaultDatabase"); ("MaxRetries", "maxRetries");
+     ("MinIdleConns", "idleConns"); ("TLSConfig", "tlsConfig")] ["durationHook"] client_rest;
+  ClientNew "getCluster" "clusterManager" "r . Addr" "NewClusterClient" "ClusterOptions" true
+    [("Addrs", "[ ] string { r . Addr }"); ("Password", "r . Pass"); ("MaxRetries", "maxRetries");
+     ("MinIdleConns", "idleConns"); ("TLSConfig", "tlsConfig")] ["durationHook"] client_rest
+].
+
+(* ---- script cache (scriptcache.go): GetSha reads the current map; SetSha copies it, sets the entry, publishes ---- *)
+Definition scriptcache_spec : list (string * list string) := [
+  ("GetScriptCache", ["once . Do ( func ( ) { scriptCache = & ScriptCache { } ; scriptCache . Store ( make ( Map ) ) ; } )";
+                      "return scriptCache"]);
+  ("ScriptCache.GetSha", ["cache := c . Load ( ) . ( Map )"; "ret , ok := cache [ p0 ]"; "return ret , ok"]);
+  ("ScriptCache.SetSha", ["lock . Lock ( )"; "defer lock . Unlock ( )"; "cache := c . Load ( ) . ( Map )";
+                          "newCache := make ( Map )"; "for k , v := range cache { newCache [ k ] = v ; }";
+                          "newCache [ p0 ] = p1"; "c . Store ( newCache )"])
+].
